@@ -16,6 +16,7 @@ def run(ctx):
     ctx.step(_p15i, ctx)
     ctx.step(_p10h, ctx)
     ctx.step(_p13f, ctx)
+    ctx.step(_p13g, ctx)
 
 
 def _p13e(ctx):
@@ -273,8 +274,10 @@ def _p10h(ctx):
                 '%s can return without having created and published a new stream: the handle it returns shares the caller\'s stream (takes values away from it, exerts no back-pressure of its own)' % label,
                 sub='new')
         # the returned handle reads through the Reader built for the new stream, not through a copy of the caller's
+        # (the Reader whose position cell is allocated during this call, wherever the construction is written)
         fresh = [(nid, si) for (nid, si, rv) in x.aggs(r'read_cursor::Reader::Reader$')
-                 if re.search(r'ReaderGroup::add_stream$', short_fn(g.nodes[nid].fn))]
+                 if any(s_[0] == 'call' and (re.search(r'alloc::allocate$', g.call_name(s_[1]) or '') or re.search(r'alloc::allocate$', short_fn(g.nodes[s_[1]].fn)))
+                        for s_ in g.deep_walk(x.agg_expr(nid, si)))]
         okf = False
         for ex in g.exits:
             r = g.ev_local(g.root_inst, 0, at=(ex, None))
@@ -313,3 +316,52 @@ def _p13f(ctx):
     # (a tree without any explicitly sized allocation is fine: Vec::clone / push size by length)
     if n == 0:
         ctx.add('P13f', 'T-FLOW', ctx.fn1(r'^read_cursor::ReaderGroup::add_stream$'), True, 'no explicitly sized buffer in the crate other than alloc::allocate', sub='none')
+
+
+FORGET_RE = r'(^|::)mem::forget$|ManuallyDrop(::<.*>)?::new$'
+TAKE_RE = r'ptr::read$|ptr::drop_in_place$|ManuallyDrop(::<.*>)?::(take|drop|into_inner)$|mem::(replace|take)$'
+
+
+def _p13g(ctx):
+    """a value of one of the crate's own types that is withheld from its destructor (`mem::forget(v)`,
+    `ManuallyDrop::new(v)`: the usual way to move parts out of a type that implements Drop) leaks every owning field that
+    is not taken out (`ptr::read(&v.f)`) or destroyed in place (`drop_in_place(&mut v.f)`) on the same path: a cloned
+    `Arc` instead of a moved one keeps the allocation alive for ever"""
+    F = ctx.F
+    n = 0
+    for name in sorted(F.fns):
+        f = F.fns[name]
+        if f.get('from_expansion'):
+            continue
+        subj = []
+        for b in f['blocks']:
+            t = b['term']
+            if b['cleanup'] or t['k'] != 'call' or not re.search(FORGET_RE, t.get('fn') or ''):
+                continue
+            g0 = (t.get('gtys') or [None])[0]
+            adt = (g0 or {}).get('adt')
+            if adt and adt in F.adts and F.adts[adt]['kind'] == 'Struct':
+                subj.append(adt)
+        if not subj:
+            continue
+        g = ctx.graph(name, 'BCast')
+        x = g.x
+        takes = x.ext_calls(TAKE_RE)
+        for c in x.ext_calls(FORGET_RE):
+            g0 = (g.nodes[c].term.get('gtys') or [None])[0]
+            adt = (g0 or {}).get('adt')
+            if not adt or adt not in F.adts or F.adts[adt]['kind'] != 'Struct':
+                continue
+            for fld in F.adts[adt]['variants'][0]['fields']:
+                if not fld.get('needs_drop'):
+                    continue
+                n += 1
+                key = '%s.%s' % (short(adt), fld['name'])
+                mine = {t_ for t_ in takes if any(p_.endswith('/' + key) for a_ in g.call_args(t_)[:1] for p_ in g.locpaths(a_))}
+                ok = bool(mine) and (x.dom(mine, c) or x.must(c, mine))
+                ctx.add('P13g', 'T-MUST', name, ok, 'the forgotten %s has its %s taken out / destroyed on every path' % (short(adt), fld['name']) if ok else
+                        '%s withholds a %s from its destructor but does not move out or destroy its field `%s` (%s) on every path: what the field owns is leaked'
+                        % (short_fn(name), short(adt), fld['name'], fld['ty']['s']), where=g.where(c), sub='%s|%s' % (short(adt), fld['name']))
+    if n == 0:
+        ctx.add('P13g', 'T-MUST', ctx.fn1(r'^multiqueue::MultiQueue::<.*>::new_internal$'), True,
+                'no value of a type of this crate is withheld from its destructor', sub='none')
